@@ -331,6 +331,25 @@ func runC12(h *H) {
 				return false
 			}
 			time.Sleep(time.Millisecond)
+			// the callers' goroutines (Wait/Collect of the commands answered in this step) may not
+			// have been scheduled yet on a loaded machine: give them up to 500 ms before observing;
+			// a command that really did not complete is still reported
+			for i := 0; i < 250; i++ {
+				all := true
+				for _, o := range s.handles {
+					if _, answered := s.oStatus[o.tag]; answered {
+						o.mu.Lock()
+						if !o.done {
+							all = false
+						}
+						o.mu.Unlock()
+					}
+				}
+				if all {
+					break
+				}
+				time.Sleep(2 * time.Millisecond)
+			}
 			obsT, obsJ := s.observe()
 			s.steps = append(s.steps, "("+coqList(evs)+", "+obsT+")")
 			s.log = append(s.log, map[string]interface{}{"events": evs, "observed": obsJ})
